@@ -569,3 +569,36 @@ def alias_graph_program(rng):
         cut = rng.randrange(1, len(lines)) if len(lines) > 1 else 1
         return ["module M\n" + "\n".join(lines[:cut]) + "\n", "module M\n" + "\n".join(lines[cut:]) + "\n"]
     return ["module M\n" + "\n".join(lines) + "\n"]
+
+
+KEYWORD_NAMES = ["bool", "int8", "uint8", "int16", "uint16", "int32", "uint32", "varint32", "varuint32", "int64", "uint64", "varint62",
+                 "varuint62", "float32", "float64", "string", "AnyClass", "module", "struct", "exception", "class", "interface", "enum",
+                 "custom", "typealias", "Sequence", "Dictionary", "Result", "compact", "idempotent", "mode", "stream", "tag", "throws",
+                 "unchecked"]
+
+
+def keyword_name_programs():
+    """Escaped identifiers spelled like every keyword / primitive, in every naming position (module, nested module, definition,
+    member, alias, reference), alone and next to a second file that uses the real keywords - in both file orders."""
+    prims = ["bool", "int32", "string", "varuint62"]
+    for k in KEYWORD_NAMES:
+        e = "\\" + k
+        user = "module N\nstruct T { a: %s, b: Sequence<%s>, c: Dictionary<string, int32> }\ninterface I { op(x: bool) -> string }\n" % (
+            k if k in prims or k in ("int8", "uint8", "int16", "uint16", "uint32", "varint32", "varuint32", "int64", "uint64", "varint62", "float32", "float64")
+            else "int32", prims[len(k) % 4])
+        singles = [
+            ("module-named", "module %s\nstruct S { a: bool }\n" % e),
+            ("nested-module-named", "module A::%s\nstruct S { a: bool, b: string }\n" % e),
+            ("module-and-use", "module %s\nstruct S { a: %s, b: int32 }\n" % (e, e)),
+            ("struct-named", "module M\nstruct %s { %s: bool }\ntypealias X = %s\nstruct U { a: %s, b: M::%s, c: ::M::%s, d: Sequence<%s?> }\n" % (e, e, e, e, e, e, e)),
+            ("enum-named", "module M\nenum %s { %s, B(%s: bool) }\nstruct U { a: %s }\n" % (e, e, e, e)),
+            ("interface-named", "module M\ninterface %s { %s(%s: bool) -> (%s: bool, x: string) }\ninterface J : %s {}\n" % (e, e, e, e, e)),
+            ("custom-and-alias", "module M\ncustom %s\ntypealias Y = Dictionary<string, %s>\n" % (e, e)),
+            ("alias-named", "module M\ntypealias %s = string\nstruct U { a: %s, b: string }\n" % (e, e)),
+            ("reference-to-nothing", "module M\nstruct U { a: %s, b: ::%s, c: M::%s }\n" % (e, e, e)),
+            ("doc-links", "module M\n/// {@link %s} {@link %s::%s}\n/// @see %s\nstruct %s { %s: bool }\n" % (e, e, e, e, e, e)),
+        ]
+        for name, text in singles:
+            yield ("kw", k, name, "alone"), [text]
+            yield ("kw", k, name, "before-user"), [text, user]
+            yield ("kw", k, name, "after-user"), [user, text]
